@@ -539,6 +539,14 @@ func loadFindings() findingsFile {
 	if err == nil {
 		json.Unmarshal(b, &ff)
 	}
+	// VERIF_FINDINGS names an additional file (used while triaging, never by
+	// the registered commands).
+	if extra := os.Getenv("VERIF_FINDINGS"); extra != "" {
+		var ef findingsFile
+		if b, err := os.ReadFile(extra); err == nil && json.Unmarshal(b, &ef) == nil {
+			ff.Findings = append(ff.Findings, ef.Findings...)
+		}
+	}
 	return ff
 }
 
